@@ -285,6 +285,7 @@ func (g *c16) configsFor(ms []mut) (cfgs []ecfg, combs [][]ecfg) {
 		{vs: []vcfg{tm()}}, {vs: []vcfg{tm()}},
 		{vs: []vcfg{du()}}, {vs: []vcfg{du()}},
 		{vs: []vcfg{fl(), tm(), du()}},
+		{vs: []vcfg{fl(), {kind: "float"}, du(), {kind: "dur"}}}, // a loose comparer before an exact one of its kind
 		// the first comparer of each kind is exact, so a later one has to be consulted
 		{or: true, vs: []vcfg{{kind: "float"}, fl(), {kind: "time"}, tm()}},
 		{or: true, vs: []vcfg{{kind: "dur"}, du()}},
@@ -480,6 +481,70 @@ func (g *c16) stream(e ecfg, seed proto.Message, writes []proto.Message) {
 		Tags: []string{"stream", "stream:" + e.tag(), fmt.Sprintf("stream-suppressed:%d", min(len(writes)+btoi(seed != nil)-len(emitted), 4))}})
 }
 
+// collStream: a Collection with an equivalence holding item "a"; the subscriber is seeded with it and
+// the item is then updated to each of writes.
+func (g *c16) collStream(e ecfg, seed proto.Message, writes []proto.Message) {
+	js := map[string]any{"op": "collection-stream", "equivalence": e.js(), "seed": jsMsg(seed)}
+	var wj []any
+	for _, w := range writes {
+		wj = append(wj, jsMsg(w))
+	}
+	js["writes"] = wj
+	opts := []resource.Option{resource.WithMessageEquivalence(e.real())}
+	if len(e.vs) == 0 {
+		opts = []resource.Option{resource.WithNoDuplicates()}
+	}
+	coll := resource.NewCollection(opts...)
+	if _, err := coll.Add("a", proto.Clone(seed)); err != nil {
+		g.direct("Collection.Add failed: "+err.Error(), "stream:set-error", js)
+		return
+	}
+	ctx, cancel := context.WithCancel(context.Background())
+	defer cancel()
+	ch := coll.Pull(ctx, resource.WithBackpressure(true))
+	got := make(chan []proto.Message, 1)
+	go func() {
+		var l []proto.Message
+		for c := range ch {
+			if c.Id == "barrier" {
+				break
+			}
+			if c.NewValue != nil {
+				l = append(l, proto.Clone(c.NewValue))
+			}
+		}
+		got <- l
+	}()
+	for _, w := range writes {
+		if _, err := coll.Update("a", proto.Clone(w)); err != nil {
+			g.direct("Collection.Update failed: "+err.Error(), "stream:set-error", js)
+			return
+		}
+	}
+	coll.Add("barrier", &testproto.TestAllTypes{DefaultString: "barrier"})
+	var emitted []proto.Message
+	select {
+	case emitted = <-got:
+	case <-time.After(5 * time.Second):
+		g.direct("the barrier item was never delivered", "stream:barrier-lost", js)
+		return
+	}
+	var ej []any
+	ec := make([]string, len(emitted))
+	for i, m := range emitted {
+		ec[i] = coqMsg(m)
+		ej = append(ej, jsMsg(m))
+	}
+	js["emitted"] = ej
+	wc := make([]string, len(writes))
+	for i, w := range writes {
+		wc[i] = coqMsg(w)
+	}
+	coq := vcoq.App("KCollStream", e.coq(), coqMsg(seed), vcoq.List(wc), vcoq.List(ec))
+	g.o.Add(vcoq.Case{Coq: coq, JSON: js, Key: coq, NonTrivial: len(writes) > 1,
+		Tags: []string{"collection-stream", "collection-stream:" + e.tag()}})
+}
+
 func btoi(b bool) int {
 	if b {
 		return 1
@@ -489,6 +554,11 @@ func btoi(b bool) int {
 
 func (g *c16) streams(n int) {
 	r := g.r
+	// the drift of DESIGN.md section 7: steps of 0.25 under a margin of 0.5, on a Value and on a Collection
+	d := func(v float64) proto.Message { return &testproto.TestAllTypes{DefaultDouble: v} }
+	half := ecfg{vs: []vcfg{{kind: "float", b: 0.5}}}
+	g.stream(half, d(1), []proto.Message{d(1.25), d(1.5), d(1.75), d(2), d(2.25)})
+	g.collStream(half, d(1), []proto.Message{d(1.25), d(1.5), d(1.75), d(2), d(2.25)})
 	for i := 0; i < n; i++ {
 		var e ecfg
 		switch r.Intn(4) {
@@ -554,6 +624,9 @@ func (g *c16) streams(n int) {
 			writes = append(writes, mk())
 		}
 		g.stream(e, seed, writes)
+		if seed != nil && i%4 == 0 {
+			g.collStream(e, seed, writes)
+		}
 	}
 }
 
@@ -562,7 +635,7 @@ func genC16(o *vcoq.Out, r *vcoq.Rand, tier string) error {
 	o.CaseType = "c16case"
 	o.Judge = "judge"
 	o.Shard = 40
-	o.Rule = "pairs: a random TestAllTypes (60%) or trait message (PullBrightnessResponse, PullEnergyLevelResponse, ElectricMode) cloned twice, one clone mutated in 0-3 places (kinds in the mut:* tags), floats dyadic, each pair judged under the default comparer, two FloatValueApprox, two TimeValueWithin, two DurationValueWithin with tolerances below/at/above the injected difference, Equal of all three, Equal(ValueOr), And and Or of Equal comparers, on (x,y), (y,x), (x,x), (y,y); plus exhaustive grids: nil / typed nil / 13 message types pairwise, 8x8 special floats, 18x18 extreme durations, 12x12 extreme timestamps, DurationValueWithinP on a 10x10x3 grid; streams: resource.Value with WithNoDuplicates or a tolerance equivalence, optional seed, 1-8 drifting writes, backpressured Pull. Non-trivial: at least one mutation applied / grid pair / stream with >= 2 writes. Distinct by the full case term."
+	o.Rule = "pairs: a random TestAllTypes (60%) or trait message (PullBrightnessResponse, PullEnergyLevelResponse, ElectricMode) cloned twice, one clone mutated in 0-3 places (kinds in the mut:* tags), floats dyadic, each pair judged under the default comparer, two FloatValueApprox, two TimeValueWithin, two DurationValueWithin with tolerances below/at/above the injected difference, Equal of all three, Equal(ValueOr), And and Or of Equal comparers, on (x,y), (y,x), (x,x), (y,y); plus exhaustive grids: nil / typed nil / 13 message types pairwise, 8x8 special floats, 18x18 extreme durations, 12x12 extreme timestamps, DurationValueWithinP on a 10x10x3 grid; streams: resource.Value (and, for a quarter, a one-item resource.Collection) with WithNoDuplicates or a tolerance equivalence, optional seed, 1-8 drifting writes, backpressured Pull. Non-trivial: at least one mutation applied / grid pair / stream with >= 2 writes. Distinct by the full case term."
 	g := &c16{o: o, r: r, g: &pairGen{r: r}}
 	scale := 1
 	if tier == "thorough" {
